@@ -20,6 +20,20 @@ def _canon():
     return canonicalize_version
 
 
+class RealCodeRaised(Exception):
+    """the code under test raised where the property statement says it must not"""
+
+
+def _guard(f, what):
+    def g(*a, **k):
+        try:
+            return f(*a, **k)
+        except Exception as e:
+            args = ", ".join(repr(x) for x in a)[:90]
+            raise RealCodeRaised(f"{what}({args}) raised {type(e).__name__}: {str(e)[:80]}") from None
+    return g
+
+
 def int_limit():
     """CPython's int<->str conversion limit in digits (0 = unlimited, or absent before 3.11)"""
     f = getattr(sys, "get_int_max_str_digits", None)
@@ -179,7 +193,7 @@ class C02(Prop):
         "C02.canon_obj", "C02.canon_arms_agree", "C02.canon_passthrough", "C02.canon_nostrip_eq_str",
         "C02.canon_never_raises", "C02.canon_obj_never_raises", "C02.canon_value", "C02.canon_parses_back",
         "C02.canon_idem", "C02.canon_strip_after_nostrip", "C02.canon_complete_invariant",
-        "C02.canon_complete_invariant_str", "C02.canon_nostrip_invariant", "C02.str_parts", "C02.flags",
+        "C02.canon_complete_invariant_str", "C02.canon_nostrip_invariant", "C02.str_parts", "C02.public_is_split", "C02.flags",
         "C02.major_minor_micro", "C02.scan_render", "C02.scan_sound", "C02.components_are_pep440_reading",
         "C02.str_is_normal_form", "C02.spelling_independent",
         "V.scan_str", "V.scan_wf", "V.cmpkey_eq_iff",
@@ -189,11 +203,18 @@ class C02(Prop):
             "spellings, leading zeros, v, white space, implicit post) of structures drawn with near neighbours "
             "(epoch x trailing zeros x pre/post/dev x mixed local segments), plus ~25% token/character damage; "
             "non-trivial = accepted by the implementation; distinct = distinct protocol lines")
-    trusted = ["CPython re's leftmost-greedy capture choice, mirrored by the hand-written scanner V.scan "
-               "(acceptance is compared with the regenerated regex on every run)",
-               "int()/str() on ASCII digit strings below sys.get_int_max_str_digits()"]
-    partial = []
-    budget = {"quick": (6000, 5000), "thorough": (200000, 150000)}
+    trusted = ["CPython re's leftmost-greedy capture choice is mirrored by the hand-written scanner V.scan; the tie is "
+               "this correspondence (components) plus 'ver.accept' (scanner acceptance vs the regex regenerated from "
+               "Version._regex, on the malformed stream) — C12 proves that regex equal to PEP 440 Appendix B",
+               "PkgModel/Spec/Spelling.lean as the reading of 'PEP 440 reading of that string with every alternate "
+               "spelling normalised' (parse tree of the Appendix B grammar, render, meaning, normalise)",
+               "int()/str() on ASCII digit strings below sys.get_int_max_str_digits() (modelled by Py.undec / Py.dec)"]
+    partial = ["'V.scan accepts s  <=>  the regenerated Version._regex matches s' is compared on every run (op ver.accept) "
+               "but not proved; what is proved is V.scan accepts s <=> s is the rendering of a valid Spelling "
+               "(C02.components_are_pep440_reading)",
+               "numeric components longer than the interpreter's int/str digit limit are in the language and in the "
+               "theorems, but CPython >= 3.11 cannot construct them (known finding, law long_numeric_component)"]
+    budget = {"quick": (12000, 10000), "thorough": (600000, 400000)}
 
     # ------------------------------------------------------------ correspondence
     def gen_cases(self, rng, n):
@@ -253,13 +274,13 @@ class C02(Prop):
     def branch(self, op, args, out):
         if out.startswith(("err", "raw", "harness-error")):
             return op + ":" + out.split(":")[0]
-        if op == "ver.parse":
+        if op == "ver.parse":      # which components are present
             e, rel, pre, post, dev, loc = out[3:].split("|")
-            rels = rel.split(",")
             fl = ("E" if e != "0" else "") + ("P" if pre != "~" else "") + ("O" if post != "~" else "") + \
-                 ("D" if dev != "~" else "") + ("L" if loc != "~" else "") + \
-                 ("z" if len(rels) > 1 and rels[-1] == "0" else "")
+                 ("D" if dev != "~" else "") + ("L" if loc != "~" else "")
             return "ver.parse:ok:" + (fl or "plain")
+        if op == "ver.view":       # which spelling freedoms the input uses
+            return "ver.view:ok:" + (_spelling_features(core.dec(args[0])) or "normal")
         if op in ("ver.canon", "ver.canonv"):
             s = core.dec(args[1])
             try:
@@ -274,7 +295,11 @@ class C02(Prop):
     def judge(self, op, args, real, model, driver):
         # a model/implementation disagreement is a C02 violation only if the real code breaks one of the
         # property's own statements on that string
-        return ("string_laws", {"s": core.dec(args[-1])})
+        s = core.dec(args[-1])
+        lim = int_limit()
+        if lim and any(len(r) > lim for r in _digit_runs(s)):
+            return ("long_numeric_component", {"digits": max(len(r) for r in _digit_runs(s)), "where": "release"})
+        return ("string_laws", {"s": s})
 
     # ------------------------------------------------------------ laws on the real code
     def gen_laws(self, rng, n):
@@ -305,8 +330,15 @@ class C02(Prop):
                 yield ("string_laws", {"s": s})
 
     def check_law(self, law, inp):
-        Version, InvalidVersion = _V()
-        canon = _canon()
+        try:
+            return self._check(law, inp)
+        except RealCodeRaised as e:
+            return False, str(e)
+
+    def _check(self, law, inp):
+        RawVersion, InvalidVersion = _V()
+        Version = _guard(RawVersion, "Version")
+        canon = _guard(_canon(), "canonicalize_version")
         if law == "long_numeric_component":
             n = int(inp["digits"])
             if not (1 <= n <= 100000) or inp["where"] not in ("release", "epoch", "post", "local"):
@@ -314,14 +346,14 @@ class C02(Prop):
             ds = "9" * n
             s = {"release": "1." + ds, "epoch": ds + "!1", "post": "1.post" + ds, "local": "1+" + ds}[inp["where"]]
             try:
-                v = Version(s)
+                v = RawVersion(s)
             except Exception as e:
                 return False, (f"a version whose {inp['where']} component has {n} digits is in the PEP 440 language "
                                f"but Version() raises {type(e).__name__}: {str(e)[:80]}")
             want = 10 ** n - 1
             got = {"release": lambda: v.release[1], "epoch": lambda: v.epoch, "post": lambda: v.post,
                    "local": lambda: v._version.local[0]}[inp["where"]]()
-            return got == want, f"{inp['where']} component of {n} nines read as a different number"
+            return got == want, ("" if got == want else f"{inp['where']} component of {n} nines read as a different number")
         if law == "string_laws":
             return self._string_laws(inp["s"])
         rng = random.Random(inp["seed"])
@@ -331,7 +363,7 @@ class C02(Prop):
             s = any_spell(rng, v)
             want = reading(v)
             try:
-                got = observe(Version(s))
+                got = observe(RawVersion(s))
             except InvalidVersion:
                 return False, f"{s!r} spells {G.normal(v)!r} but is rejected"
             for k in want:
@@ -389,7 +421,7 @@ class C02(Prop):
                 if canon(c, strip_trailing_zero=strip) != c:
                     return False, f"not idempotent (strip={strip}): {s!r} -> {c!r} -> {canon(c, strip_trailing_zero=strip)!r}"
                 try:
-                    back = Version(c)
+                    back = RawVersion(c)
                 except InvalidVersion:
                     return False, f"canonical form {c!r} of {s!r} does not parse"
                 if not (back == ver) or hash(back) != hash(ver):
@@ -401,21 +433,24 @@ class C02(Prop):
 
     def _string_laws(self, s):
         """what the statement says about an arbitrary string, valid or not"""
-        Version, InvalidVersion = _V()
-        canon = _canon()
+        RawVersion, InvalidVersion = _V()
+        Version = _guard(RawVersion, "Version")
+        canon = _guard(_canon(), "canonicalize_version")
         if not isinstance(s, str):
             raise TypeError("not a string")
         lim = int_limit()
         if lim and any(len(r) > lim for r in _digit_runs(s)):
             raise ValueError("numeric component beyond the interpreter limit (law long_numeric_component)")
         try:
-            ver = Version(s)
+            ver = RawVersion(s)
         except InvalidVersion:
             for strip in (True, False):
                 c = canon(s, strip_trailing_zero=strip)
                 if c != s or type(c) is not str:
                     return False, f"non-version {s!r} is not returned unchanged (strip={strip}): {c!r}"
             return True, "non-version"
+        except Exception as e:
+            return False, f"Version({s!r}) raised {type(e).__name__} (neither accepted nor InvalidVersion)"
         out = str(ver)
         again = Version(out)
         if not (again == ver) or tuple(again._version) != tuple(ver._version) or str(again) != out:
@@ -435,6 +470,34 @@ class C02(Prop):
         if ver.public != out.split("+")[0] or (ver.local is None) != ("+" not in out):
             return False, f"public/local do not partition str on {s!r}"
         return True, ""
+
+
+_ALT = None
+
+
+def _spelling_features(s):
+    """x: white space or v prefix; U: upper case; a: alternate word; i: implicit post `-N`;
+    t: separator after a word with implicit number; z: leading zero"""
+    import re
+    global _ALT
+    if _ALT is None:
+        _ALT = re.compile(r"alpha|beta|preview|pre|rev|(?<![a-z])c(?![a-z])|(?<![a-z])r(?![a-z])")
+    pub = s.strip().split("+")[0]
+    low = pub.lower()
+    fl = ""
+    if s != s.strip() or low[:1] == "v":
+        fl += "x"
+    if any(c.isupper() for c in s.strip()[1:]):
+        fl += "U"
+    if _ALT.search(low.lstrip("v")):
+        fl += "a"
+    if re.search(r"[0-9]-[0-9]", low):
+        fl += "i"
+    if re.search(r"[a-z][-_.](?![0-9])", low):
+        fl += "t"
+    if re.search(r"(?<![0-9])0[0-9]", s):
+        fl += "z"
+    return fl
 
 
 def _digit_runs(s):
